@@ -100,6 +100,16 @@ var orderSpecs = []orderSpec{
 		assign: []string{"ackType", "pk.FixedHeader.Qos", "pk.Ignore"},
 	},
 	{
+		// the property-block decoder: every helper call, every early return and the per-kind switch (C27/C28: a
+		// dropped early return or a moved offset update changes the list)
+		fn: "packets.(*Properties).Decode", def: "propertiesDecodeOrder",
+		calls: map[string]argMode{
+			"DecodeLength": noArgs, "decodeByte": noArgs, "decodeUint16": noArgs, "decodeUint32": noArgs,
+			"decodeString": noArgs, "decodeBytes": noArgs,
+		},
+		assign: []string{"offset"},
+	},
+	{
 		fn: "mqtt.(*Client).WriteLoop", def: "writeLoopOrder",
 		calls: map[string]argMode{
 			"cl.WritePacket": allArgs, "cl.Lock": noArgs, "cl.Unlock": noArgs, "cl.flushOutbuf": noArgs, "atomic.AddInt32": allArgs,
